@@ -1,14 +1,14 @@
 CONSTANTS
-  W = 1
+  W = 3
   Limit = 1
   L = 1
   Uds = {}
-  MaxConns = 2
+  MaxConns = 5
   MaxFaults = 0
   MaxCmds = 0
   MaxErrs = 0
   MaxBare = 0
-  WakeAt = 1
+  WakeAt = 2
   IgnoreUnknownIdx = TRUE
   UnlinkOnDeregister = FALSE
   ResumeClearsBackoff = TRUE
@@ -22,9 +22,8 @@ CONSTANTS
   PauseKeepsRegistered = FALSE
   RejoinPausedNoAvail = FALSE
   ResetSeparate = FALSE
-  JumpToFirstAvailable = FALSE
+  JumpToFirstAvailable = TRUE
 SPECIFICATION Spec
 VIEW View
-INVARIANTS C03_NoLostWake
 PROPERTIES Steps
 CHECK_DEADLOCK FALSE
